@@ -245,3 +245,98 @@ def _inside_wait_for(c: ast.AST) -> bool:
         if isinstance(par, ast.stmt):
             return False
     return False
+
+
+# ----------------------------------------------------------------------------- no second response after a failed one
+def _channel_params(fn: FuncInfo, side: str) -> Set[str]:
+    want = "Send" if side == "asgi" else "StartResponse"
+    out = set()
+    f: Optional[FuncInfo] = fn
+    while f is not None:
+        a = f.node.args
+        for x in a.posonlyargs + a.args + a.kwonlyargs:
+            if x.annotation is not None and ast.unparse(x.annotation).split(".")[-1] == want:
+                out.add(x.arg)
+        f = f.parent
+    return out
+
+
+def _after(node: ast.AST, fn: FuncInfo) -> List[ast.stmt]:
+    """statements that can run after `node` (a statement) completes normally: its later siblings in every enclosing block"""
+    out: List[ast.stmt] = []
+    child = node
+    for par in parents(node):
+        for fld in ("body", "orelse", "finalbody"):
+            blk = getattr(par, fld, None)
+            if isinstance(blk, list) and child in blk:
+                out.extend(blk[blk.index(child) + 1:])
+        if isinstance(par, ast.ExceptHandler) and child in par.body:
+            pass
+        if par is fn.node:
+            break
+        child = par
+    return out
+
+
+def _broad_or_io(h: ast.ExceptHandler) -> bool:
+    """bare / BaseException / Exception, or OSError and its subclasses (the failures a response hits after it started: the
+    file vanished, the connection broke). A handler for one specific other class (StopAsyncIteration, an HTTP exception of the
+    package, WebSocketDisconnect) is the normal end of something, not a failed emission."""
+    if h.type is None:
+        return True
+    for n in ([h.type] if not isinstance(h.type, ast.Tuple) else list(h.type.elts)):
+        nm = ast.unparse(n).split(".")[-1]
+        cls = getattr(builtins, nm, None)
+        if nm in ("BaseException", "Exception"):
+            return True
+        if isinstance(cls, type) and issubclass(cls, OSError):
+            return True
+    return False
+
+
+def no_response_after_failed_response(p: Program) -> List[Item]:
+    """If a call that was handed the gateway's emit channel (send / start_response) fails, the response may already have
+    started. A handler that catches such a failure (OSError family or broader) and then emits through the channel again - in
+    the handler or in the code after the try - can produce a second response start."""
+    out: List[Item] = []
+    n = 0
+    for side in ("asgi", "wsgi"):
+        for f in [x for x in p.all_functions() if x.module.name.startswith(f"baize.{side}")]:
+            ch = _channel_params(f, side)
+            if not ch:
+                continue
+
+            def forwards(c: ast.Call) -> bool:
+                if isinstance(c.func, ast.Name) and c.func.id in ch:
+                    return True
+                return any(isinstance(a, ast.Name) and a.id in ch for a in c.args) or any(isinstance(k.value, ast.Name) and k.value.id in ch for k in c.keywords)
+
+            for t in [x for x in ast.walk(f.node) if isinstance(x, ast.Try)]:
+                if p.func_of_node(next((q for q in [t] + list(parents(t)) if isinstance(q, (ast.FunctionDef, ast.AsyncFunctionDef))), f.node)) is not f:
+                    continue
+                inside = [c for b in t.body for c in ast.walk(b) if isinstance(c, ast.Call) and forwards(c)]
+                if not inside:
+                    continue
+                n += 1
+                bad = None
+                for h in t.handlers:
+                    if not _broad_or_io(h):
+                        continue
+                    in_handler = [c for b in h.body for c in ast.walk(b) if isinstance(c, ast.Call) and forwards(c)]
+                    later = []
+                    if not (h.body and isinstance(h.body[-1], (ast.Raise, ast.Return))):
+                        later = [c for s_ in _after(t, f) for c in ast.walk(s_) if isinstance(c, ast.Call) and forwards(c)]
+                    if in_handler or later:
+                        bad = (h, (in_handler or later)[0])
+                        break
+                if bad:
+                    h, c2 = bad
+                    out.append(("violation", f, h, f"second response after except {ast.unparse(h.type) if h.type else ''}".strip(),
+                                f"{f.fq}: a failure of `{ast.unparse(inside[0])[:60]}` - which was given the {side.upper()} emit channel and may already have started the response - is caught "
+                                f"({'except ' + ast.unparse(h.type) if h.type else 'bare except'}) and `{ast.unparse(c2)[:60]}` then emits again: a second response start after the first one "
+                                "(what was emitted is no longer a legal prefix)"))
+                else:
+                    out.append(("ok", f, t, "", f"{f.fq}: no handler around an emitting call leads to another emission"))
+    if n == 0:
+        out.append(("ok", p.all_functions()[0], None, "", "no try statement of baize.asgi / baize.wsgi encloses a call that is handed the emit channel together with a handler (nothing to restart)"))
+    return out
